@@ -161,7 +161,7 @@ bool exec_str_b(Ctx &c, const Op &op) {
         // in the enumeration - std::bad_alloc out of any of their allocations.  Values they return are temporaries of the call.
         StrObj *x = pick_str_wf(c, op.a);
         if (!x) { c.skipped = true; return true; }
-        unsigned grp = op.b % 10;
+        unsigned grp = op.b % 11;
         note_sig(c, op, std::string("obj=") + cl(x) + ",group=" + std::to_string(grp));
         c.budget_bytes = x->model.size() * 64 + 256;
         as_const(x);
@@ -176,7 +176,7 @@ bool exec_str_b(Ctx &c, const Op &op) {
         std::u8string w8(reinterpret_cast<const char8_t *>(x->model.data()), x->model.size());
         bool has_nul = x->model.find('\0') != std::string::npos;
         bool lat_ok = true; for (char32_t ch : sc) if (ch >= 0x100) lat_ok = false;
-        unsigned allowed = 0;
+        unsigned allowed = 0; bool numfmt_changed = false;
         Op o2 = op;
         if (grp == 9) o2.fault &= ~F_ALLOC;      // sinks owned by libstdc++ / glibc: engine C's business (they swallow exceptions)
         ExcKind ex = run_sut(c, o2, [&] {
@@ -238,6 +238,19 @@ bool exec_str_b(Ctx &c, const Op &op) {
                 if (!has_nul) { S t = ST::format("{}|{}|{}|{}|{}", w16.c_str(), w32.c_str(), w8.c_str(), wide.c_str(), narrow.c_str()); q += (unsigned long long)t.size(); }
                 { S t = ST::format("{}|{}", s.to_utf8(), s.to_utf16()); q += (unsigned long long)t.size(); } { S t = ST::format("{}|{}", s.to_utf32(), s.to_wchar()); q += (unsigned long long)t.size(); }
                 break; }
+            case 10: {  // the public numeric formatter objects, kept and reused by their owner: a rejected call leaves the previous result in place
+                ST::float_formatter<double> fd; ST::float_formatter<float> ff; ST::uint_formatter<unsigned long long> fu;
+                static const char SPEC[] = {'e', 'f', 'g', 'E', 'G'}; static const char BADSPEC[] = {'x', 'd', 0, '%', 'a', ' '};
+                fd.format(dbl_value(op.c) > 1e15 || dbl_value(op.c) < -1e15 ? 1.5 : dbl_value(op.c), SPEC[op.c % 5]); ff.format(2.5f + (float)(op.c % 100), SPEC[(op.c >> 3) % 5]); fu.format(op.c * 2654435761ull, 2 + (int)(op.c % 35), op.c & 1);
+                std::string d0(fd.text(), fd.size()), f0(ff.text(), ff.size()), u0(fu.text(), fu.size());
+                bool threw1 = false, threw2 = false;
+                try { fd.format(3.75, BADSPEC[op.c % 6]); } catch (const ST::bad_format &) { threw1 = true; }
+                try { ff.format(3.75f, BADSPEC[(op.c >> 4) % 6]); } catch (const ST::bad_format &) { threw2 = true; }
+                if (threw1 && std::string(fd.text(), fd.size()) != d0) numfmt_changed = true;
+                if (threw2 && std::string(ff.text(), ff.size()) != f0) numfmt_changed = true;
+                if (std::string(fu.text(), fu.size()) != u0) numfmt_changed = true;
+                fd.format(-0.5, 'g'); q += (unsigned long long)fd.size();
+                break; }
             default: {  // the format_writer extension point and the library's own stream / FILE* sinks (thread- and call-local)
                 struct W : ST::format_writer { std::string out; explicit W(const char *f) : ST::format_writer(f) {}
                     W &append(const char *d, size_t n = ST_AUTO_SIZE) override { out.append(d, n == ST_AUTO_SIZE ? std::strlen(d) : n); return *this; }
@@ -252,6 +265,7 @@ bool exec_str_b(Ctx &c, const Op &op) {
         });
         (void)lat_ok;
         settle(c, o2, ex, allowed);
+        if (numfmt_changed) set_viol(c, "state_changed_after_throw", "a numeric formatter object no longer holds its previous result after a call on it threw ST::bad_format");
         return true;
     }
     case S_COMPARE: {
